@@ -220,7 +220,8 @@ class Encoder(nn.Module):
                     pool=(block + self.stem_blocks > 0),
                     pool_before_convs=True,
                     pooling_stride=2,
-                    num_convs=convs_per_block - 1,
+                    # at least one convolution, so that the block sets its channels
+                    num_convs=max(convs_per_block - 1, 1),
                     filters=block_filters,
                     kernel_size=kernel_size,
                     use_bias=True,
@@ -283,7 +284,10 @@ class Encoder(nn.Module):
 
             self.encoder_stack.append(
                 SimpleConvBlock(
-                    in_channels=block_filters,
+                    # with one conv per block the widening convs above are absent
+                    in_channels=(
+                        block_filters if convs_per_block > 1 else after_block_filters
+                    ),
                     pool=False,
                     pool_before_convs=False,
                     pooling_stride=2,
